@@ -89,9 +89,38 @@ def gen_deletion(r):
     return {'cfg': cfg, 'handlers': hs, 'actions': acts}
 
 
+def gen_field_switch(r):
+    """The set of selected handlers changes while a cycle of the same kind is open: field handlers on different fields, one of
+    them waiting for its retry when the next edit takes its field back and changes another one (its unfinished record is of a
+    handler that is no longer selected; the cycle of the handlers that ARE selected must still close)."""
+    n_edits = r.choice([1, 2, 3])
+    # the script position advances with every invocation: 'ok' at creation, then one failure per edit of spec.a, so that the
+    # handler is waiting for its retry (2 s) whenever the following edit (0.125-1 s later) takes spec.a back
+    fa = {'kind': 'field', 'id': 'fa', 'script': ['ok'] + ['temp:2'] * n_edits + ['ok'], 'kwargs': {'field': 'spec.a'}}
+    fb = {'kind': 'field', 'id': 'fb', 'script': r.choice([['ok'], ['ok'], ['temp:1', 'ok']]), 'kwargs': {'field': 'spec.b'}}
+    hs = [fa, fb]
+    if r.random() < 0.3:
+        hs.append({'kind': 'update', 'id': 'u0', 'script': ['ok'], 'kwargs': {'backoff': 1}})
+    acts = [{'a': 'create', 'obj': 'obj1', 'spec': {'a': 1, 'b': {'c': 'x'}}}, {'a': 'run', 'dt': r.choice([2, 8])}]
+    v = 1
+    for k in range(n_edits):
+        nv = r.randrange(700, 800)
+        acts += [{'a': 'edit_spec', 'obj': 'obj1', 'patch': {'a': nv}}, {'a': 'run', 'dt': r.choice([0.125, 0.5, 1])}]
+        back = r.random() < 0.7
+        acts += [{'a': 'edit_spec', 'obj': 'obj1', 'patch': {'a': v if back else nv, 'b': {'c': r.choice(['p', 'q', 'r']) + str(k)}}},
+                 {'a': 'run', 'dt': r.choice([0.5, 3, 8])}]
+        v = v if back else nv
+        if r.random() < 0.2:
+            acts.append({'a': r.choice(['stop_restart', 'kill_restart']), 'obj': 'obj1'})
+    acts.append({'a': 'run', 'dt': 8})
+    return {'cfg': cs.gen_cfg(r), 'handlers': hs, 'actions': acts}
+
+
 def gen(r, i):
     if i % 6 == 5:
         return gen_burst(r)
+    if i % 12 == 3:
+        return gen_field_switch(r)
     if i % 6 == 4:
         return gen_deletion(r)
     return cs.gen_scenario(r, n_actions=14, daemons=(i % 4 == 0))
